@@ -95,11 +95,28 @@ def case_hash(case) -> int:
     return int.from_bytes(hashlib.blake2b(canon(case).encode(), digest_size=8).digest(), "big")
 
 
+_DEADLINE = {"fired": False}
+
+
+def check_deadline():
+    """Called by harness code that steps the library: once the deadline of the running case has passed (and the
+    interruption was swallowed by a bare `except:` in the library), stop driving it."""
+    if _DEADLINE["fired"]:
+        raise Hang("deadline of the running case has passed")
+
+
 @contextmanager
 def deadline(seconds: int = 20):
     """SIGALRM backstop around library calls that must terminate (3-4 orders of slack)."""
 
+    fired = []
+    _DEADLINE["fired"] = False
+
     def _raise(signum, frame):
+        fired.append(True)
+        _DEADLINE["fired"] = True  # harness code that drives the library (event-loop stepping) checks this and gives up
+        # re-arm: library code with a bare `except:` may swallow the exception and carry on looping
+        signal.alarm(1)
         raise Hang(f"did not terminate within {seconds}s")
 
     old = signal.signal(signal.SIGALRM, _raise)
@@ -109,6 +126,10 @@ def deadline(seconds: int = 20):
     finally:
         signal.alarm(0)
         signal.signal(signal.SIGALRM, old)
+        _DEADLINE["fired"] = False
+    if fired:
+        # the deadline passed but the exception was swallowed on the way (bare except in library code)
+        raise Hang(f"did not terminate within {seconds}s (the interruption was swallowed by the code under test)")
 
 
 def indi_frame(tb) -> str | None:
@@ -289,6 +310,8 @@ class Ctx:
         every nshards-th of them. Stops after `stop_after` distinct violations."""
         n = 0
         for i, case in enumerate(cases):
+            if getattr(self, "hung", False):
+                break  # a non-terminating case was found: every further case may cost a full timeout, the verdict is in
             if i % self.nshards != self.shard:
                 continue
             n += 1
@@ -304,7 +327,7 @@ class Ctx:
         import hypothesis
         from hypothesis import HealthCheck, Phase, given, settings
 
-        if n <= 0:
+        if n <= 0 or getattr(self, "hung", False):
             return
         ctx = self
         limit = self.SHRINK_CALL_LIMIT
@@ -358,6 +381,8 @@ class Ctx:
 
     def add_violation(self, sub, case, f: Failure) -> int:
         sig = getattr(f, "full_sig", f"{sub}:{f.sig}")
+        if f.sig == "hang" or f.sig.startswith("hang:"):
+            self.hung = True
         for v in self.violations:
             if v["sig"] == sig:
                 return len(self.violations)
